@@ -15,7 +15,7 @@ import hashlib
 NETWORK_KINDS = [
     "bitflip", "truncate", "extend", "pad_leading_zero", "strip_leading", "side", "strip_side",
     "substitute", "noncanon", "torsion_shift", "small_order", "off_curve", "field_overflow",
-    "non_member", "reflect", "replace", "rand", "empty",
+    "non_member", "reflect", "replace", "rand", "empty", "textform",
 ]
 
 
@@ -94,6 +94,23 @@ def apply(fault, msg, ctx):
         if not ext:
             return msg, False
         new = msg + ext
+    elif kind == "textform":
+        # the message went through a text transport / was pasted as text: hex or base64 of the
+        # element, or the bytes read as latin-1 and written as UTF-8
+        import base64
+        how = fault.get("how", "hex")
+        if how == "hex":
+            new = side + body.hex().encode()
+        elif how == "HEX":
+            new = side + body.hex().upper().encode()
+        elif how == "base64":
+            new = side + base64.b64encode(body)
+        elif how == "utf8":
+            new = side + body.decode("latin-1").encode("utf-8")
+        elif how == "utf8_whole":
+            new = msg.decode("latin-1").encode("utf-8")
+        else:
+            new = (side + body).hex().encode()
     elif kind == "pad_leading_zero":
         new = side + b"\x00" + body
     elif kind == "strip_leading":
@@ -261,4 +278,6 @@ def gen_fault(rng, nnodes=2, elem_size=32):
     elif kind == "rand":
         f["n"] = rng.choice([elem_size, elem_size, rng.randrange(0, 2 * elem_size + 3)])
         f["seed"] = rng.randrange(1 << 30)
+    elif kind == "textform":
+        f["how"] = rng.choice(["hex", "HEX", "base64", "utf8", "utf8_whole", "hex_whole"])
     return f
